@@ -281,6 +281,9 @@ func parseIndexContent(src []byte, header indexStart) ([][]byte, int, error) {
 		return nil, 0, nil
 	}
 	oSize := int(header.offSize)
+	if oSize < 1 || oSize > 4 {
+		return nil, 0, fmt.Errorf("invalid INDEX offset size %d", oSize)
+	}
 	offsetArraySize := int(header.count+1) * oSize
 	if L := len(src); L < offsetArraySize {
 		return nil, 0, fmt.Errorf("reading INDEX offsets: EOF: expected length: %d, got %d", offsetArraySize, L)
